@@ -566,6 +566,7 @@ def gen_conv_program(rng, path, nprocs=1, fmt=None):
     p.all('create %s %d clobber -' % (path, fmt))
     n = 6
     p.all('def_dim x %d' % n)
+    p.all('def_dim t 0')
     xts = ['byte', 'short', 'int', 'float', 'double', 'char'] + (['ubyte', 'ushort', 'uint', 'int64', 'uint64'] if fmt == 5 else [])
     vars_ = []
     for i, xt in enumerate(rng.shuffle(xts)[:rng.range(3, len(xts))]):
@@ -612,7 +613,35 @@ def gen_conv_program(rng, path, nprocs=1, fmt=None):
     if rng.chance(1, 2):
         p.all('put_att - txt char 3 616263')
         p.all('get_attm - txt %s' % rng.choice(['int', 'double', 'text']))            # NC_ECHAR unless text
+    # record variables: a put that returns NC_ERANGE still transfers its other elements and, when it appends records,
+    # extends the record dimension like any other put
+    recvars = []
+    for i, xt in enumerate(rng.shuffle([x for x in xts if x in XRANGE])[:2]):
+        p.all('def_var r%d %s 2 t x' % (i, xt))
+        recvars.append(('r%d' % i, xt))
     p.all('enddef')
+    nrec = 0
+    for (rn_, xt) in recvars:
+        xlo, xhi = XRANGE[xt]
+        for rep_ in range(rng.range(1, 2)):
+            mt = rng.choice([m for m in MRANGE if MRANGE[m][0] <= xlo - 1 or MRANGE[m][1] >= xhi + 1] or list(MRANGE))
+            mlo, mhi = MRANGE[mt]
+            cands = [c for c in [xlo, xhi, xlo - 1, xhi + 1, 0, 1, 100, xhi + 1, xlo - 1] if mlo <= c <= mhi]
+            vals = [rng.choice(cands) for _ in range(n)]
+            rec = nrec + rng.range(0, 2)
+            form = rng.choice(['vara', 'vars', 'indep'])
+            if form == 'vara':
+                p.all('put vara c %s %s %s %d,0 1,%d - - : %s' % (rn_, mt, rng.choice(['c', 't']), rec, n, ' '.join(map(str, vals))))
+            elif form == 'vars':
+                p.all('put vars c %s %s c %d,0 1,%d 1,2 - : %s' % (rn_, mt, rec, n // 2, ' '.join(map(str, vals[:n // 2]))))
+            else:
+                p.all('begin_indep')
+                p.all('put vara i %s %s c %d,0 1,%d - - : %s' % (rn_, mt, rec, n, ' '.join(map(str, vals))))
+                p.all('end_indep')
+            nrec = max(nrec, rec + 1)
+            p.all('inq_numrecs')
+            p.all('get vara c %s %s c %d,0 1,%d - -' % (rn_, NATIVE[xt], rec, n))
+            p.tags.add('conv-erange-appends-record')
     for v in vars_:
         if v.xt == 'char':
             p.all('put vara c %s text %s 0 %d - - : %s' % (v.name, rng.choice(['c', 't']), n, ' '.join(str(rng.range(65, 90)) for _ in range(n))))
